@@ -1970,16 +1970,23 @@ class t2data(object):
         in the grid are discarded.
         """
         self.short_output = {}
+        # (items given by name are looked up in the grid)
+        def lookup(item, table):
+            if isinstance(item, (str, tuple)) and item in table: return table[item]
+            else: return item
         if self.history_block:
-            blks = [blk for blk in self.history_block if isinstance(blk, t2block)]
+            blks = [lookup(blk, self.grid.block) for blk in self.history_block]
+            blks = [blk for blk in blks if isinstance(blk, t2block)]
             if blks: self.short_output['block'] = blks
         if self.history_connection:
-            cons = [con for con in self.history_connection if isinstance(con, t2connection)]
+            cons = [lookup(con, self.grid.connection) for con in self.history_connection]
+            cons = [con for con in cons if isinstance(con, t2connection)]
             if cons: self.short_output['connection'] = cons
         if self.history_generator:
             # generator history is specified by block- use all generators in those blocks:
             gens = []
             for item in self.history_generator:
+                item = lookup(item, self.grid.block)
                 if isinstance(item, t2generator): blkgens = [item]
                 elif isinstance(item, t2block):
                     blkgens = [gen for gen in self.generatorlist if gen.block == item.name]
